@@ -23,6 +23,11 @@ void snap () {
   VL (t);
 }
 mapping scripts = ([]);
+mapping pols = ([ "cf" : ([ "u1" : "s:u1", "u2" : "s:u2", "bb" : "s:Backbone", "root" : "s:Root", "odd" : "i:0" ]),
+                  "vs" : ([ ]), "co" : ([ ]) ]);
+int vseq = 0;
+mapping pol (string kind) { return pols[kind]; }
+int next_v () { return ++vseq; }
 int nest = 0;
 void set_script (string key, string ops) { if (ops == "-") map_delete (scripts, key); else scripts[key] = ops; }
 string script (string key) { return scripts[key]; }
